@@ -96,32 +96,47 @@ Definition leaf_slots (m : mro) : bool :=
 
 (** ** The getstate_setstate decision ([_determine_whether_to_implement]) *)
 
-Definition gs_decision (c : cspec) : bool :=
+(** [inh]: the class would inherit an attrs-generated [__getstate__]
+    ([_inherits_attrs_getstate(cls)]: the resolved [__getstate__] carries
+    [__attrs_generated__]; a pair in the class's own body hides it). *)
+Definition gs_decision (c : cspec) (inh : bool) : bool :=
   match s_gs c with
   | Some flag => flag
-  | None => if s_autodetect c && s_usergs c then false else s_slots c  (* default=slots *)
+  | None =>
+      if s_autodetect c && s_usergs c then false
+      else s_slots c || (negb (s_usergs c) && inh)   (* default=slots or _inherits_attrs_getstate *)
   end.
 
 (** What the class's own [__dict__] holds for [__getstate__]/[__setstate__]. *)
 Inductive gskind := GGen | GUser | GNone.
 
-Definition gs_of (c : cspec) : gskind :=
-  if gs_decision c then GGen else if s_usergs c then GUser else GNone.
+Definition gs_of (c : cspec) (inh : bool) : gskind :=
+  if gs_decision c inh then GGen else if s_usergs c then GUser else GNone.
 
 (** Attribute lookup of [__getstate__] along the MRO.  The answer carries the MRO
     suffix starting at the defining class: the generated pair closes over THAT
     class's [_attr_names] and [cache_hash]. *)
 Inductive resolution := RGen (r : mro) | RUser (r : mro) | RDefault.
 
+Definition is_gen (r : resolution) : bool := match r with RGen _ => true | _ => false end.
+
 Fixpoint resolve (m : mro) : resolution :=
   match m with
   | [] => RDefault
   | c :: bases =>
-      match gs_of c with
+      let rb := resolve bases in
+      match gs_of c (is_gen rb) with
       | GGen => RGen m
       | GUser => RUser m
-      | GNone => resolve bases
+      | GNone => rb
       end
+  end.
+
+(** Per class of the MRO: what its own [__dict__] holds. *)
+Fixpoint gs_kinds (m : mro) : list gskind :=
+  match m with
+  | [] => []
+  | c :: bases => gs_of c (is_gen (resolve bases)) :: gs_kinds bases
   end.
 
 (** ** Slots ([_create_slots_class]) *)
@@ -529,4 +544,4 @@ Record clsobs := CO {
 }.
 
 Definition cls_observe (m : mro) : clsobs :=
-  CO (map gs_of m) (hashable m) (slots_truthy m).
+  CO (gs_kinds m) (hashable m) (slots_truthy m).
